@@ -159,7 +159,7 @@ contract(MT + '_apply_annotations_param_ret_common',
                                                "node.caller_allocates == expected_caller_allocates(self, node, tag))",
              'C01.direction.inout_in_not_caller_allocated': "implies(adir in ('inout', 'in') and old(node.direction) != adir, "
                                                             "node.caller_allocates == False)",
-             'C01.direction.unchanged_keeps_allocation': "implies(adir is None, node.caller_allocates == old(node.caller_allocates))",
+             'C01.direction.unchanged_keeps_allocation': "implies(adir is None and isinstance(node, ast.Parameter), node.caller_allocates == old(node.caller_allocates))",
              # ---- nullable / optional / not
              'C01.nullable.valid_applied': "implies(has(tag, 'nullable') and spec_pointer_like(self, node) and not has(tag, 'not'), "
                                            "node.nullable == True and node.not_nullable == False)",
@@ -185,7 +185,7 @@ contract(MT + '_apply_annotations_param_ret_common',
              'C01.not.overrides': "implies(has(tag, 'not'), node.nullable == False and node.not_nullable == True)",
              # ---- no annotation => exact no-op on these attributes (quiet)
              'C01.unannotated.quiet': "implies(tag is None and not isinstance(old(node.type), ast.Array), LOGGER._warning_count == old(LOGGER._warning_count) "
-                                      "and node.direction == old(node.direction) and node.optional == old(node.optional) "
+                                      "and node.direction == old(node.direction) and (isinstance(node, ast.Return) or node.optional == old(node.optional)) "
                                       "and node.skip == old(node.skip) and node.transfer == old(node.transfer) "
                                       "and node.type is old(node.type) and node.not_nullable == old(node.not_nullable))",
              'C01.valid_only.quiet': "implies(tag is not None and not container_annotated(tag) and not has(tag, 'type') "
